@@ -458,10 +458,10 @@ class Watchdog(BaseException):
 
 class watchdog:
     """An operation of the library that does not return (or takes hundreds of times longer than on the pinned tree) gives no verdict by
-    itself; what was established before it is still reported.  Allowance: VERIF_WATCHDOG_S, default 900 s (quick) / 6 h (thorough)."""
+    itself; what was established before it is still reported.  Allowance: VERIF_WATCHDOG_S, default 600 s (quick) / 6 h (thorough)."""
 
     def __init__(self, tier: str):
-        self.limit = int(os.environ.get("VERIF_WATCHDOG_S", "900" if tier == "quick" else "21600"))
+        self.limit = int(os.environ.get("VERIF_WATCHDOG_S", "600" if tier == "quick" else "21600"))
 
     def __enter__(self):
         import signal
